@@ -43,6 +43,11 @@ first word, `burst_complete` exactly on the last word of every 16th set (TS1/TS2
 the word sequence an earlier, interrupted activation of the same type left behind is labelled with the third known
 mechanism (the set of possible left-over positions is tracked, so set-aligned interruptions are handled too).
 
+About one case in 30 is instead a single complete TSEQ burst of the transceiver's real length (65536 sets, 524288
+words: `run_long_tseq`): burst_complete must come exactly once, on word index 524287, and ~3500 sampled words (all of the
+last ~1000 and the first 40 of the next burst) must be the right ones.  include_config is crossed with the set type for
+detectors and emitters (TS1 / inverted TS1 with configuration field, TS2 without).
+
 Not judged: `sink.ready` of the detector, `transmitting` of the transceiver, contradictory send_* requests (not
 generated), the first cycle after reset, sets whose symbol 4 is not D0.0 (not generated), reports when a request
 bit changes while the configuration word is stalled (counted as unjudged), latency beyond the windows above.
@@ -57,7 +62,7 @@ RULE = ("case = wrapper with 2 TSEmitters, 3 TSBurstDetectors (random set type /
         "truncated set, duplicated first word, garbage between sets, foreign sets, random words) with 5 idle profiles; "
         "non-trivial = at least one demanded report, one corrupted-set episode and one complete emitter burst; distinct = hash of configs + scripts")
 REQUIRED_BINS = [
-    "det_tseq", "det_ts1", "det_its1", "det_ts2", "det_n1", "det_n2or3", "det_n8", "det_n32", "xcvr_case",
+    "det_tseq", "det_ts1", "det_its1", "det_ts2", "det_config_crossed", "emit_config_crossed", "xcvr_tseq_full_65536_burst", "det_n1", "det_n2or3", "det_n8", "det_n32", "xcvr_case",
     "ep_clean_exact_n", "ep_clean_n_minus_1", "ep_clean_n_plus_1", "ep_clean_multi", "ep_corrupt_data_bit", "ep_corrupt_ctrl_bit",
     "ep_corrupt_last_word", "ep_corrupt_first_word", "ep_truncated", "ep_dup_first_word", "ep_garbage_direct", "ep_garbage_after_idle",
     "ep_foreign_sets", "ep_random_words", "ep_cfg_per_set", "ep_bit_sweep",
@@ -70,7 +75,7 @@ REQUIRED_BINS = [
 ]
 REQUIRED_EVENTS = ["det_valid_words", "det_sets_wellformed", "det_reports_demanded", "det_reports_matched", "det_detected_cycles",
                    "det_cfg_compared", "det_episodes_judged", "emit_words_accepted", "emit_sets_complete", "emit_bursts_complete",
-                   "emit_done_cycles", "emit_cfg_words_checked", "xcvr_reports_matched", "xcvr_words_accepted", "xcvr_burst_complete"]
+                   "emit_done_cycles", "emit_cfg_words_checked", "xcvr_reports_matched", "xcvr_words_accepted", "xcvr_burst_complete", "xcvr_tseq_full_burst_complete"]
 ASSUMPTIONS = [
     "set contents are those of USB 3.2 tables 6-3 (TSEQ), 6-4/6-5 (TS1), 6-6/6-7 (TS2), symbol 0 in bits 7:0 of the 32-bit word",
     "a TS2 whose reserved bits of symbol 5 are set is still well-formed (receivers ignore reserved bits); symbol 4 is always D0.0",
@@ -705,9 +710,14 @@ def judge_emitter(res, tag, kind, n, with_cfg, tr, xcvr=False):
 DET_CHOICES = [("tseq", 32, False), ("tseq", 2, False), ("tseq", 3, False),
                ("ts1", 8, False), ("ts1", 8, False), ("ts1", 1, False), ("ts1", 2, False),
                ("its1", 8, False), ("its1", 3, False),
-               ("ts2", 8, True), ("ts2", 8, True), ("ts2", 8, True), ("ts2", 1, True), ("ts2", 2, True), ("ts2", 3, True)]
-EMIT_CHOICES = [("tseq", 1), ("tseq", 2), ("tseq", 16), ("ts1", 1), ("ts1", 2), ("ts1", 3), ("ts1", 16), ("its1", 1), ("its1", 16),
-                ("ts2", 1), ("ts2", 2), ("ts2", 3), ("ts2", 16), ("ts2", 16)]
+               ("ts2", 8, True), ("ts2", 8, True), ("ts2", 8, True), ("ts2", 1, True), ("ts2", 2, True), ("ts2", 3, True),
+               # include_config crossed with the other set types / include_config off for TS2
+               ("ts1", 8, True), ("ts1", 2, True), ("its1", 8, True), ("ts2", 8, False)]
+EMIT_CHOICES = [("tseq", 1, False), ("tseq", 2, False), ("tseq", 16, False), ("ts1", 1, False), ("ts1", 2, False), ("ts1", 3, False),
+                ("ts1", 16, False), ("its1", 1, False), ("its1", 16, False), ("ts2", 1, True), ("ts2", 2, True), ("ts2", 3, True),
+                ("ts2", 16, True), ("ts2", 16, True),
+                # include_config crossed with the other set types / include_config off for TS2
+                ("ts1", 2, True), ("ts1", 16, True), ("its1", 3, True), ("ts2", 2, False)]
 
 
 def ready_gen(rng, profile):
@@ -725,9 +735,104 @@ def ready_gen(rng, profile):
                 yield 0
 
 
+def run_long_tseq(rng, res):
+    """One complete TSEQ burst of the transceiver's real length (65536 sets = 524288 words; the emitter's set counter is
+    exactly 16 bits wide).  Runs on amaranth's Simulator directly: harness-side counters in a wrapper count accepted
+    words and burst_complete cycles and latch the word index of the first burst_complete, the test bench wakes every
+    1000-6000 cycles (and every cycle around the expected end) and compares the presented word with the reference set."""
+    from amaranth import Module, Elaboratable, Signal
+    from amaranth.sim import Simulator
+    from luna.gateware.usb.usb3.link.ordered_sets import TSTransceiver
+    import warnings
+    x = TSTransceiver()
+    words, bc_count, bc_at = Signal(32), Signal(8), Signal(32)
+
+    class Wrapper(Elaboratable):
+        def elaborate(self, platform):
+            m = Module()
+            m.submodules.x = x
+            with m.If(x.source.valid & x.source.ready):
+                m.d.ss += words.eq(words + 1)
+            with m.If(x.burst_complete):
+                m.d.ss += bc_count.eq(bc_count + 1)
+                with m.If(bc_count == 0):
+                    m.d.ss += bc_at.eq(words)
+            return m
+
+    L = len(SETS["tseq"])
+    total = 65536 * L
+    sim = Simulator(Wrapper())
+    sim.add_clock(8e-9, domain="ss")
+    st = {"cycles": 0, "checked": 0}
+    res.bin("xcvr_tseq_full_65536_burst")
+    res.desc = {"long_tseq_burst": True}
+    res.sig("long_tseq", rng.random())
+
+    async def tb(ctx):
+        def check(where):
+            w = ctx.get(words)
+            got = (ctx.get(x.source.valid), ctx.get(x.source.data), ctx.get(x.source.ctrl), ctx.get(x.source.first), ctx.get(x.source.last))
+            pos = w % L
+            want = (1,) + SETS["tseq"][pos] + (int(pos == 0), int(pos == L - 1))
+            st["checked"] += 1
+            if got != want:
+                res.violation("xcvr_source_wrong_word", "full TSEQ burst, %s: word index %d presented as %s, expected %s" % (where, w, got, want))
+                return False
+            return True
+        ctx.set(x.sink.valid, 0)
+        ctx.set(x.source.ready, 1)
+        ctx.set(x.send_tseq_burst, 1)
+        await ctx.tick("ss").repeat(2)
+        st["cycles"] += 2
+        ok = True
+        while ok and ctx.get(words) < total - 7000:
+            n = rng.randint(1000, 6000)
+            await ctx.tick("ss").repeat(n)
+            st["cycles"] += n
+            ok = check("mid-burst")
+            if rng.random() < 0.3:                      # a short stall
+                ctx.set(x.source.ready, 0)
+                k = rng.randint(1, 3)
+                await ctx.tick("ss").repeat(k)
+                st["cycles"] += k
+                ok = ok and check("stalled")
+                ctx.set(x.source.ready, 1)
+        # cycle by cycle around the end of the burst and into the next one
+        guard = 0
+        while ok and ctx.get(words) < total + 40 and guard < 20000:
+            guard += 1
+            if rng.random() < 0.1:
+                ctx.set(x.source.ready, 0)
+                await ctx.tick("ss")
+                ctx.set(x.source.ready, 1)
+                st["cycles"] += 1
+            await ctx.tick("ss")
+            st["cycles"] += 1
+            ok = check("around the end")
+        n_bc, at = ctx.get(bc_count), ctx.get(bc_at)
+        res.event("xcvr_tseq_full_burst_words", ctx.get(words))
+        if ok:
+            if n_bc != 1 or at != total - 1:
+                res.violation("xcvr_tseq_burst_length_wrong", "send_tseq_burst held, %d words accepted: burst_complete seen %d time(s), first on word index %d; "
+                              "expected exactly once, on word index %d (last word of set 65536)" % (ctx.get(words), n_bc, at, total - 1))
+            else:
+                res.event("xcvr_tseq_full_burst_complete")
+
+    sim.add_testbench(tb)
+    with warnings.catch_warnings():
+        warnings.simplefilter("ignore")
+        sim.run()
+    res.cycles = st["cycles"]
+    res.event("xcvr_tseq_words_checked", st["checked"])
+    res.nontrivial = True
+
+
 def run_case(rng, tier, res):
     from amaranth import Module, Elaboratable, Cat
     from luna.gateware.usb.usb3.link.ordered_sets import TSEmitter, TSBurstDetector, TSTransceiver
+
+    if rng.random() < 0.035:
+        return run_long_tseq(rng, res)
 
     det_budget = rng.randint(3000, 5000)
     emit_cycles = rng.randint(1200, 2200)
@@ -738,7 +843,7 @@ def run_case(rng, tier, res):
     use_xcvr = rng.random() < 0.25
 
     dets = [TSBurstDetector(sets_in_burst=n, include_config=wc, **luna_set(kind)) for (kind, n, wc) in det_cfgs]
-    emits = [TSEmitter(transmit_burst_length=n, include_config=(kind == "ts2"), **luna_set(kind)) for (kind, n) in emit_cfgs]
+    emits = [TSEmitter(transmit_burst_length=n, include_config=wc, **luna_set(kind)) for (kind, n, wc) in emit_cfgs]
     xcvr = TSTransceiver() if use_xcvr else None
 
     class Wrapper(Elaboratable):
@@ -764,6 +869,8 @@ def run_case(rng, tier, res):
         st = build_stream(rng, kind, n, wc, det_budget)
         streams.append(st)
         res.bin("det_" + kind)
+        if wc != (kind == "ts2"):
+            res.bin("det_config_crossed")
         res.bin("det_n%s" % {1: "1", 2: "2or3", 3: "2or3", 8: "8", 32: "32"}[n])
         add(("d", i, "valid"), d.sink.valid); add(("d", i, "data"), d.sink.data); add(("d", i, "ctrl"), d.sink.ctrl)
         add(("d", i, "det"), d.detected)
@@ -780,8 +887,9 @@ def run_case(rng, tier, res):
 
     # ---- emitters
     escripts = []
-    for i, ((kind, n), e) in enumerate(zip(emit_cfgs, emits)):
-        wc = kind == "ts2"
+    for i, ((kind, n, wc), e) in enumerate(zip(emit_cfgs, emits)):
+        if wc != (kind == "ts2"):
+            res.bin("emit_config_crossed")
         start, tags = emitter_script(rng, kind, n, wc, emit_cycles)
         profile = rng.choice([("always",), ("random", 0.8), ("random", 0.5), ("random", 0.2), ("bursty", 6, 12), ("bursty", 3, 3)])
         escripts.append((start, profile))
@@ -847,7 +955,7 @@ def run_case(rng, tier, res):
     b.add_monitor(lambda bb: words.append(bb.get(allbits)))
     res.desc = {"detectors": [{"kind": k, "N": n, "cfg": wc, "episodes": [e[2] for e in st.episodes[:6]]}
                               for (k, n, wc), st in zip(det_cfgs, streams)],
-                "emitters": [{"kind": k, "N": n, "ready": list(p), "start_head": s[:40]} for (k, n), (s, p) in zip(emit_cfgs, escripts)],
+                "emitters": [{"kind": k, "N": n, "ready": list(p), "start_head": s[:40]} for (k, n, _), (s, p) in zip(emit_cfgs, escripts)],
                 "xcvr": use_xcvr}
     res.sig(det_cfgs, emit_cfgs, [st.cyc for st in streams], escripts, use_xcvr)
     b.run()
@@ -873,8 +981,7 @@ def run_case(rng, tier, res):
         if cyc[off:off + len(st.cyc)] != st.cyc[:T - off]:
             raise RuntimeError("harness: sampled detector input differs from the script")
         judge_detector(res, "det%d" % i, kind, n, wc, cyc, eps, tr[("d", i, "det")], cfg_out, deferred)
-    for i, (kind, n) in enumerate(emit_cfgs):
-        wc = kind == "ts2"
+    for i, (kind, n, wc) in enumerate(emit_cfgs):
         t_ = {k: tr[("e", i, k)] for k in ("start", "ready", "valid", "data", "ctrl", "first", "last", "done")}
         if wc:
             t_["req"] = [a | (l << 2) | (s << 3) for a, l, s in zip(tr[("e", i, "rhr")], tr[("e", i, "rlb")], tr[("e", i, "rns")])]
